@@ -14,6 +14,10 @@
 (*     factors scaling a variable; all / any / xor over Boolean variables as a   *)
 (*     logic assertion or as a 0/1 term), a relation, a                          *)
 (*     constant, an optional indexed name, and a `for` clause of binders        *)
+(* Scoping: a binder may not re-bind a name that an enclosing scope (the `for`   *)
+(* clause, an earlier binder of the same list) already binds - the program is    *)
+(* then rejected (AlreadyDeclaredVariable) - while two aggregations side by side  *)
+(* may both use the same name (WellScoped, family "scope").                       *)
 (* Envs(bs) is THE meaning of a binder list: the sequence of environments in    *)
 (* iteration order (first binder outermost, later binders may use earlier       *)
 (* names).  Unroll(row) is the list of concrete rows in that order.  The        *)
@@ -27,11 +31,12 @@ CONSTANT Family
 ArrA == <<3, 1, 2>>
 ArrE == <<>>
 ArrW == <<2, 5>>
+ArrD == <<2, 4, 4, 3>>          \* (a repeated value: the set functions)
 MatM == <<<<1, 2>>, <<3, 4>>>>
 Nodes == <<"N1", "N2", "N3">>
 Edges == <<[u |-> "N1", v |-> "N2", w |-> 2], [u |-> "N1", v |-> "N3", w |-> 1], [u |-> "N2", v |-> "N3", w |-> 3]>>
-ArrOf(nm) == CASE nm = "A1" -> ArrA [] nm = "E0" -> ArrE [] nm = "W2" -> ArrW
-DataText == "    let A1 = [3, 1, 2]\n    let E0 = []\n    let W2 = [2, 5]\n    let M2 = [[1, 2], [3, 4]]\n" \o
+ArrOf(nm) == CASE nm = "A1" -> ArrA [] nm = "E0" -> ArrE [] nm = "W2" -> ArrW [] nm = "D4" -> ArrD
+DataText == "    let A1 = [3, 1, 2]\n    let E0 = []\n    let W2 = [2, 5]\n    let D4 = [2, 4, 4, 3]\n    let M2 = [[1, 2], [3, 4]]\n" \o
             "    let G = Graph {\n        N1 -> [N2: 2, N3: 1],\n        N2 -> [N3: 3],\n        N3\n    }"
 
 \* ---- binders -------------------------------------------------------------------
@@ -138,6 +143,7 @@ LhsText(r) ==
       [] r.agg = "prod" -> "prod(" \o BindersText(r.inner) \o ") { " \o FactorText(r.term.coef) \o " } * " \o BareText(r.term)
       [] OTHER -> r.agg \o "(" \o BindersText(r.inner) \o ") { " \o TermText(r.term) \o " }")
    \o (IF r.extra = <<>> THEN "" ELSE " + " \o TermText(r.extra[1]))
+   \o JoinS([k \in 1..Len(r.more) |-> " + sum(" \o BindersText(r.more[k].inner) \o ") { " \o TermText(r.more[k].term) \o " }"], 1, "")
 RowText(r) ==
    (IF r.named THEN "c_" \o r.nameix \o ": " ELSE "")
    \o LhsText(r) \o (IF r.cmp = "assert" THEN "" ELSE " " \o CmpText(r.cmp) \o " " \o ToString(r.rhs))
@@ -164,7 +170,17 @@ ConcreteRowText(r, env) ==
    IN  (IF r.named THEN "c_" \o env[r.nameix].s \o ": " ELSE "")
        \o (IF r.agg = "prod" THEN prodtext ELSE AggText(r, cts))
        \o (IF r.extra = <<>> THEN "" ELSE " + " \o ConcText(Concrete(r.extra[1], env)))
+       \o JoinS([k \in 1..Len(r.more) |->
+                   LET es == Envs(r.more[k].inner, env) IN " + " \o SumText([j \in 1..Len(es) |-> Concrete(r.more[k].term, es[j])])], 1, "")
        \o (IF r.cmp = "assert" THEN "" ELSE " " \o CmpText(r.cmp) \o " " \o ToString(r.rhs))
+\* ---- scoping -------------------------------------------------------------------
+BoundBy(b) == {b.v} \cup (IF "v2" \in DOMAIN b THEN {b.v2} ELSE {}) \cup (IF "v3" \in DOMAIN b THEN {b.v3} ELSE {})
+\* a binder list is well scoped under the names `outer` iff no binder re-binds a name of `outer` or of an earlier binder
+ListScoped(bs, outer) == \A k \in 1..Len(bs) : BoundBy(bs[k]) \cap (outer \cup UNION {BoundBy(bs[j]) : j \in 1..(k - 1)}) = {}
+NamesOf(bs) == UNION {BoundBy(bs[k]) : k \in 1..Len(bs)}
+WellScoped(r) == /\ ListScoped(r.for, {})
+                 /\ ListScoped(r.inner, NamesOf(r.for))
+                 /\ \A k \in 1..Len(r.more) : ListScoped(r.more[k].inner, NamesOf(r.for))
 Unroll(r) == LET es == Envs(r.for, <<>>) IN [j \in 1..Len(es) |-> ConcreteRowText(r, es[j])]
 \* an aggregation over no elements has no meaning for min / max / avg: such rows are not generated
 InnerCounts(r) == LET es == Envs(r.for, <<>>) IN {Len(Envs(r.inner, es[j])) : j \in 1..Len(es)}
@@ -189,8 +205,10 @@ Lit(n) == [k |-> "lit", n |-> n]
 Val(v) == [k |-> "val", v |-> v]
 Acc(arr, v) == [k |-> "acc", arr |-> arr, v |-> v]
 Row(agg, inner, term, extra, cmp, rhs, named, nameix, for) ==
-   [agg |-> agg, inner |-> inner, term |-> term, extra |-> extra, cmp |-> cmp, rhs |-> rhs, named |-> named, nameix |-> nameix, for |-> for, style |-> "block"]
+   [agg |-> agg, inner |-> inner, term |-> term, extra |-> extra, cmp |-> cmp, rhs |-> rhs, named |-> named, nameix |-> nameix, for |-> for, style |-> "block", more |-> <<>>]
 Chain(r) == [r EXCEPT !.style = "chain"]
+\* further sum-aggregations added to the left-hand side, each [inner |-> binders, term |-> term]
+WithMore(r, ms) == [r EXCEPT !.more = ms]
 NumBinders == {Rng("i", 0, 3), Rng("i", 1, 1), RngI("i", 0, 2), RngI("i", 2, 1), LenR("i", "A1"), LenR("i", "E0"), InArr("i", "A1"), Rng("i", 2, 4)}
 \* rows over one numeric index i
 TermsI == {Term("x", <<Ix("i", 0)>>, One), Term("x", <<Ix("i", 1)>>, One), Term("x", <<Ix("i", 0)>>, Val("i")), Term("x", <<Ix("i", 0)>>, Lit(2))}
@@ -230,9 +248,9 @@ RowsLogicBase == {Row(a, <<bj>>, Term("x", <<Ix("j", 0)>>, One), <<>>, "assert",
 RowsLogic == RowsLogicBase \cup {Chain(r) : r \in RowsLogicBase}
 \* zip, set functions, neighbours
 RowsSets == {Row(a, <<SetOp("e", fn, a1, a2)>>, Term("x", <<Ix("e", 0)>>, cf), <<>>, "le", 8, FALSE, "i", <<>>)
-               : a \in {"sum", "max"}, fn \in {"union", "intersection", "difference"}, a1 \in {"A1", "W2", "E0"}, a2 \in {"A1", "W2", "E0"}, cf \in {One, Val("e")}}
+               : a \in {"sum", "max"}, fn \in {"union", "intersection", "difference"}, a1 \in {"A1", "W2", "E0", "D4"}, a2 \in {"A1", "W2", "E0", "D4"}, cf \in {One, Val("e")}}
             \cup {Row("none", <<>>, Term("x", <<Ix("e", 0)>>, Val("e")), <<>>, "ge", 0, n, "e", <<SetOp("e", fn, a1, a2)>>)
-               : fn \in {"union", "intersection", "difference"}, a1 \in {"A1", "W2"}, a2 \in {"A1", "W2", "E0"}, n \in BOOLEAN}
+               : fn \in {"union", "intersection", "difference"}, a1 \in {"A1", "W2", "D4"}, a2 \in {"A1", "W2", "E0", "D4"}, n \in BOOLEAN}
             \cup {Row(a, <<Zip("a", "b", a1, a2)>>, Term("x", <<Ix("a", 0)>>, Val("b")), <<>>, "le", 8, FALSE, "i", <<>>)
                : a \in {"sum", "min"}, a1 \in {"A1", "W2"}, a2 \in {"A1", "W2"}}
             \cup {Row("none", <<>>, Term("y", <<Ix("a", 0), Ix("b", 0)>>, Val("a")), <<>>, "le", 6, n, "a", <<Zip("a", "b", a1, a2)>>)
@@ -240,7 +258,14 @@ RowsSets == {Row(a, <<SetOp("e", fn, a1, a2)>>, Term("x", <<Ix("e", 0)>>, cf), <
 RowsNeigh == {Row(a, <<Neigh("v", "u")>>, Term("z", <<Ix("v", 0)>>, One), <<Term("z", <<Ix("u", 0)>>, One)>>, c, 1, n, "u", <<NodesB("u")>>)
                : a \in {"sum"}, c \in {"ge", "le"}, n \in BOOLEAN}
              \cup {Row("none", <<>>, Term("f", <<Ix("u", 0), Ix("v", 0)>>, One), <<>>, "le", 2, FALSE, "u", <<NodesB("u"), Neigh("v", "u")>>)}
+\* scoping: the same name in two aggregations side by side (fine), in nested binders, in `for` and inside (rejected)
+ScopeBinders == {Rng("i", 0, 2), Rng("i", 1, 3), RngI("j", 0, 1), InArr("i", "W2"), Enum("a", "i", "W2"), Enum("i", "j", "W2")}
+RowsScope == {WithMore(Row("sum", <<b1>>, Term("x", <<Ix(b1.v, 0)>>, One), <<>>, "le", 3, FALSE, "i", fr),
+                       <<[inner |-> <<b2>>, term |-> Term("x", <<Ix(b2.v, 0)>>, Val(b2.v))]>>)
+               : b1 \in ScopeBinders, b2 \in ScopeBinders, fr \in {<<>>, <<Rng("i", 4, 6)>>, <<Rng("k", 4, 6)>>}}
+             \cup {Row("sum", <<b1, b2>>, Term("x", <<Ix(b2.v, 0)>>, One), <<>>, "le", 3, FALSE, "i", <<>>) : b1 \in ScopeBinders, b2 \in ScopeBinders}
 RowSet == CASE Family = "prod" -> RowsProd
+            [] Family = "scope" -> RowsScope
             [] Family = "logic" -> RowsLogic
             [] Family = "sets" -> RowsSets \cup RowsNeigh
             [] Family = "one" -> RowsFor1 \cup RowsSum1
@@ -255,7 +280,7 @@ vars == <<rows, phase>>
 MaxRows == IF Family = "mix" THEN 3 ELSE 1
 Init == rows = <<>> /\ phase = "rows"
 AddRow == /\ phase = "rows" /\ Len(rows) < MaxRows
-          /\ \E r \in RowSet : Meaningful(r) /\ rows' = Append(rows, r)
+          /\ \E r \in RowSet : Meaningful(r) /\ (Family = "scope" \/ WellScoped(r)) /\ rows' = Append(rows, r)
           /\ UNCHANGED phase
 Finish == phase = "rows" /\ Len(rows) >= 1 /\ phase' = "done" /\ UNCHANGED rows
 Next == AddRow \/ Finish
@@ -264,11 +289,13 @@ Spec == Init /\ [][Next]_vars
 ProgText == "min sum(i in 0..2) { x_i }\ns.t.\n    0 <= 1\n"
             \o JoinS([k \in 1..Len(rows) |-> "    " \o RowText(rows[k])], 1, "\n")
             \o "\nwhere\n" \o DataText \o "\ndefine\n" \o DeclProg
-UnrolledRows == Flat([k \in 1..Len(rows) |-> Unroll(rows[k])], 1)
+AllScoped == \A k \in 1..Len(rows) : WellScoped(rows[k])
+UnrolledRows == IF AllScoped THEN Flat([k \in 1..Len(rows) |-> Unroll(rows[k])], 1) ELSE <<>>
 UnrolledText == "min x_0 + x_1\ns.t.\n    0 <= 1\n"
             \o JoinS([k \in 1..Len(UnrolledRows) |-> "    " \o UnrolledRows[k]], 1, "\n")
             \o "\ndefine\n" \o DeclUnrolled
 \* both texts start with the row 0 <= 1, so that a program whose rows all range over
 \* nothing still has a constraint list
-Emit == phase = "done" => PrintT(<<"CASE", ToJson([prog |-> ProgText, unrolled |-> UnrolledText, nrows |-> Len(UnrolledRows)])>>)
+Emit == phase = "done" => PrintT(<<"CASE", ToJson([prog |-> ProgText, unrolled |-> UnrolledText, nrows |-> Len(UnrolledRows),
+                                                    expect |-> IF AllScoped THEN "ok" ELSE "AlreadyDeclaredVariable"])>>)
 =============================================================================
